@@ -20,7 +20,7 @@ import (
 	errorx "github.com/panjf2000/gnet/v2/pkg/errors"
 )
 
-var ctlOps = []string{"Validate", "CountConnections", "Dup", "DupListener-ok", "DupListener-unknown", "Register-empty", "Register-conn", "Execute-nil", "Execute-run", "Stop-cancelled"}
+var ctlOps = []string{"Validate", "CountConnections", "Dup", "DupListener-ok", "DupListener-unknown", "Register-empty", "Register-conn", "Execute-nil", "Execute-run", "Stop-cancelled", "Stop-live"}
 
 type ctlState struct {
 	w          *world
@@ -161,6 +161,15 @@ func (cs *ctlState) do(op string, phase string) {
 		if err == nil {
 			cs.execWant++
 		}
+	case "Stop-live":
+		// only issued by the second thread, while the first one is stopping the engine
+		err := eng.Stop(context.Background())
+		if err != nil && !errors.Is(err, errorx.ErrEngineInShutdown) {
+			bad("returned %v", err)
+		}
+		if err == nil {
+			cs.checkFullyShutDown("a concurrent Stop(live context) returned nil")
+		}
 	case "Stop-cancelled":
 		ctx, cancel := context.WithCancel(context.Background())
 		cancel()
@@ -203,9 +212,9 @@ func (cs *ctlState) checkFullyShutDown(where string) {
 	}
 }
 
-func ctlWorld(name string, et bool, concurrent bool) *world {
+func ctlWorld(name string, et bool, concurrent bool, lb LoadBalancing) *world {
 	w := newWorld(name)
-	w.opts = append(w.opts, WithLoadBalancing(LeastConnections))
+	w.opts = append(w.opts, WithLoadBalancing(lb))
 	if et {
 		w.opts = append(w.opts, WithEdgeTriggeredIO(true))
 	}
@@ -222,26 +231,33 @@ func ctlWorld(name string, et bool, concurrent bool) *world {
 		sched.Go("user", func() {
 			w.waitBoot()
 			sched.BlockUntil(func() bool { return done >= 1 })
+			cancelledStop := false
 			for i := 0; i < 3; i++ {
-				op := ctlOps[sched.Choose(len(ctlOps), "ctl-running")]
+				op := ctlOps[sched.Choose(len(ctlOps)-1, "ctl-running")] // Stop-live is the fixed step below
 				phase := "running"
 				cs.do(op, phase)
 				if op == "Stop-cancelled" {
+					cancelledStop = true
 					break
 				}
 			}
-			// Stop with a live context: nil only after the engine has fully shut down
-			err := w.eng.Stop(context.Background())
-			if err != nil && !errors.Is(err, errorx.ErrEngineInShutdown) {
-				w.violate("ctl:Stop:err", "Stop(live context) returned %v", err)
-			}
-			if err == nil {
-				cs.checkFullyShutDown("Stop(live context) returned nil")
+			if cancelledStop {
+				// Stop returned the context's error: the shutdown it started must complete on its own
+				sched.BlockUntil(func() bool { return w.runDone })
+			} else {
+				// Stop with a live context: nil only after the engine has fully shut down
+				err := w.eng.Stop(context.Background())
+				if err != nil && !errors.Is(err, errorx.ErrEngineInShutdown) {
+					w.violate("ctl:Stop:err", "Stop(live context) returned %v", err)
+				}
+				if err == nil {
+					cs.checkFullyShutDown("Stop(live context) returned nil")
+				}
 			}
 			stopped = true
 			sched.BlockUntil(func() bool { return w.runDone })
 			for i := 0; i < 2; i++ {
-				op := ctlOps[sched.Choose(len(ctlOps), "ctl-stopped")]
+				op := ctlOps[sched.Choose(len(ctlOps)-1, "ctl-stopped")]
 				cs.do(op, "stopped")
 			}
 			if err := w.eng.Stop(context.Background()); !errors.Is(err, errorx.ErrEngineInShutdown) {
@@ -264,7 +280,7 @@ func ctlWorld(name string, et bool, concurrent bool) *world {
 				w.waitBoot()
 				sched.BlockUntil(func() bool { return done >= 1 })
 				for i := 0; i < 2; i++ {
-					op := ctlOps[sched.Choose(len(ctlOps)-1, "ctl-concurrent")] // no second Stop here
+					op := ctlOps[sched.Choose(len(ctlOps), "ctl-concurrent")]
 					phase := "stopping"
 					if stopped {
 						phase = "stopped"
@@ -421,7 +437,13 @@ func ctlSchedConfigs() ([]sched.Config, func(string) *sched.Config) {
 				}
 			}
 			out = append(out, sched.Config{Property: "C19", Name: name, Bounds: b, Horizon: 40000, Deadline: seqmc.Deadline(), DelayBounded: true,
-				New: func() sched.Scenario { return ctlWorld(name, et, conc) }})
+				New: func() sched.Scenario { return ctlWorld(name, et, conc, LeastConnections) }})
+		}
+		if !et {
+			// the argument checks of Register must not depend on the balancer
+			nameH := "control/LT/source-addr-hash"
+			out = append(out, sched.Config{Property: "C19", Name: nameH, Bounds: []sched.Bound{{PB: 0, DB: 0}, {PB: 0, DB: 1}, {PB: 0, DB: 2}}, Horizon: 40000, Deadline: seqmc.Deadline(), DelayBounded: true,
+				New: func() sched.Scenario { return ctlWorld(nameH, false, false, SourceAddrHash) }})
 		}
 		et2 := et
 		name := fmt.Sprintf("enroll-fault/%s", map[bool]string{false: "LT", true: "ET"}[et])
